@@ -5,6 +5,10 @@ import logging
 from .util import Digest
 
 
+import re as _re
+_ADDR = _re.compile(r" at 0x[0-9a-fA-F]+")
+
+
 class Recorder:
     def __init__(self, clock):
         self.clock = clock
@@ -44,7 +48,8 @@ class Recorder:
 
 
 def _short(v):
-    r = repr(v)
+    # what goes into the digest: no memory addresses (default object reprs)
+    r = _ADDR.sub(' at 0x?', repr(v))
     return r if len(r) < 400 else r[:400]
 
 
@@ -59,11 +64,13 @@ class _RecHandler(logging.Handler):
             msg = record.getMessage()
         except Exception:
             msg = str(record.msg)
+        msg = _ADDR.sub(' at 0x?', msg)
         exc = None
         site = None
         if record.exc_info and record.exc_info[1] is not None:
             e = record.exc_info[1]
-            exc = '%s: %s' % (type(e).__name__, e)
+            # (object reprs carry memory addresses: not part of the history)
+            exc = _ADDR.sub(' at 0x?', '%s: %s' % (type(e).__name__, e))
             try:
                 import traceback
                 tb = traceback.extract_tb(e.__traceback__)
